@@ -72,4 +72,13 @@ TEXTS = {
                     "76 genuine defects of the unchanged tree are recorded as known findings by crash signature; a new signature is a violation."),
         level_note=("Trusted: sanitizer reports, libFuzzer. Inputs <= 4 KB; limits rss 2 GB / malloc 1 GB / 10 s per input. A defect whose signature (sanitizer kind + "
                     "first frame inside /repo, or oracle message) equals a recorded one in the same reader is not distinguished from it.")),
+    "C18": dict(
+        engine="rapidcheck",
+        technique="property-based testing (rapidcheck): round-trip oracles (inverse o forward = identity inside the reported validity interval) with method-derived tolerances, monotonicity and orthonormality predicates on generated data and fitted transforms",
+        design_ref="DESIGN.md §5 C18",
+        level_text=("Exploration: thousands (quick) to ~600 000 (thorough) fitted transforms on generated data; each is composed with its inverse and compared "
+                    "with the identity within a tolerance derived from the algorithm's own stopping rules, plus moment/orthonormality predicates computed "
+                    "independently in the harness. Counter-example search with shrinking."),
+        level_note=("Trusted: the harness's Gaussian cdf/quantile (erfc + Newton), its Gauss-Hermite rule (self-checked), rapidcheck. Monotonicity is examined "
+                    "at the 0.1 resolution of the method; ill-conditioned covariance matrices (cond > 1e10) are inconclusive.")),
 }
